@@ -17,7 +17,7 @@ from __future__ import annotations
 import itertools
 import time
 
-from .. import core, seqref, vt
+from .. import core, seqref, switch_ilv, vt
 from . import c11
 
 PROPERTY = "C12"
@@ -25,7 +25,7 @@ LEVEL = "exploration"
 META = {
     "engine": "vtx",
     "technique": "bounded-exhaustive enumeration of (switch-family operator form, outer timeline, inner timelines) on virtual time "
-    "against a nondeterministic switch reference simulator closed over all orders of simultaneous events",
+    "against a nondeterministic switch reference simulator closed over all orders of simultaneous events; plus stateless exhaustive exploration of thread interleavings (bounded preemptions) with the outer sequence and the inners emitting from their own threads",
     "text": "switch_latest, switch_map (mapper and default identity), switch_map_indexed and flat_map_latest are run on every outer "
     "timeline with <=K inner arrivals and every tuple of inner timelines of the structural set (overlapping lifetimes, errors in stale "
     "and current inners, outer completion before/with/after the latest inner); the recorded output and the inner subscription log "
@@ -157,13 +157,16 @@ def run(ctx: core.Ctx):
     ctx.assumptions = [
         "VirtualTimeScheduler queue discipline (checked separately by C28/C29)",
         "harness sources are conforming and honour disposal; whether a hot inner's event in the very instant of its subscription reaches the new subscriber is left open (both accepted)",
-        "single-threaded virtual time",
+        "virtual-time part: single-threaded",
     ]
+    switch_ilv.run_part(ctx)  # E3: outer and inners on their own threads
     part = ctx.sharded(shard)
     ctx.cov["operators_covered"] = sorted(k[3:] for k in part.counters if k.startswith("op:"))
 
 
 def replay(case):
+    if isinstance(case, dict) and str(case.get("harness", "")).startswith("switch-threads|"):
+        return switch_ilv.replay(case)
     case = dict(case)
     case["sources"] = {n: [k, [tuple(x) for x in tl]] for n, (k, tl) in case["sources"].items()}
     problems, ob, stats = run_case(case)
